@@ -218,6 +218,17 @@ def rand_doc(rng, V, T, idx):
         items = [d % i for i, d in enumerate(rng.sample(AUTHOR_DEFS, rng.range(1, 3)))]
         d = '<defs id="au-defs">%s</defs>' % ''.join(items); author_defs.append(d)
         parts.insert(rng.below(len(parts) + 1), d)
+    if kind == 'root' and rng.chance(0.12):
+        # a nested <svg> (processed, or passed through because it carries the namespace) among the content: what follows it is
+        # output like everything else and needs its rules
+        # (never as the first child: a list that starts with a namespaced <svg> is passed through as a whole - real-SVG detection
+        # is applied to every level - which is the subject of C03, not of this property)
+        parts.insert(1 + rng.below(max(1, len(parts) // 2)),
+                     rng.choice(['<svg><rect wh="2"/></svg>', '<svg xmlns="http://www.w3.org/2000/svg"><rect width="2" height="2"/></svg>',
+                                 '<g><svg><circle r="1"/></svg></g>']))
+    if kind == 'root' and rng.chance(0.1):
+        # the in-document switch for local styles, set to what it already is: must not touch the auto-style switch
+        parts.insert(rng.below(len(parts) + 1), '<config use-local-styles="false"/>')
     cfg = {}
     if rng.chance(0.12) and kind == 'root':
         cfg['add_auto_styles'] = False
